@@ -1,8 +1,331 @@
-(* C08: proofs about the model of dataset arithmetic. *)
-From Coq Require Import List ZArith Bool Arith String Lia.
+(* C08: structure of the results (shape, bins, name kept; well-formedness along
+   every finite chain), values, and the sign of the errors along chains. *)
+From Coq Require Import List ZArith Bool Arith Lia.
 From Flocq Require Import IEEE754.BinarySingleNaN.
-From VV Require Import Lib.Base Lib.B64 C08.Model.
+From VV Require Import Lib.Base Lib.B64 C08.Model C08.ProofsFloat.
 Import ListNotations.
 
-Lemma copy_same d : run_op d OCopy = Ok d.
-Proof. reflexivity. Qed.
+(* ---- lists ---- *)
+
+Lemma zipw_length {X Y Z} (f : X -> Y -> Z) l1 l2 :
+  length (zipw f l1 l2) = Nat.min (length l1) (length l2).
+Proof. revert l2; induction l1 as [|a r IH]; intros [|b r2]; cbn; auto. Qed.
+
+Lemma zipw_Forall {X Y Z} (f : X -> Y -> Z) (P : Z -> Prop) l1 l2 :
+  (forall a b, In a l1 -> In b l2 -> P (f a b)) -> Forall P (zipw f l1 l2).
+Proof.
+  revert l2; induction l1 as [|a r IH]; intros [|b r2] H; cbn; constructor.
+  - apply H; now left.
+  - apply IH. intros x y Hx Hy. apply H; now right.
+Qed.
+
+Lemma zipw_nth {X Y Z} (f : X -> Y -> Z) l1 l2 k dx dy dz :
+  k < length l1 -> k < length l2 ->
+  nth k (zipw f l1 l2) dz = f (nth k l1 dx) (nth k l2 dy).
+Proof.
+  revert l2 k; induction l1 as [|a r IH]; intros [|b r2] [|k] H1 H2; cbn in *; try lia; auto.
+  apply IH; lia.
+Qed.
+
+Lemma combine_nth_pair {X Y} (l1 : list X) (l2 : list Y) k dx dy :
+  length l1 = length l2 -> nth k (combine l1 l2) (dx, dy) = (nth k l1 dx, nth k l2 dy).
+Proof. intros H. now apply combine_nth. Qed.
+
+Lemma nat_list_eqb_eq (l1 l2 : list nat) : list_eqb Nat.eqb l1 l2 = true <-> l1 = l2.
+Proof. apply list_eqb_spec. intros a b. apply Nat.eqb_eq. Qed.
+
+(* ---- one arithmetic operation ---- *)
+
+Lemma consistent_shape d d2 : consistent d d2 = true -> shape d2 = shape d.
+Proof. unfold consistent. rewrite andb_true_iff. intros [H _]. now apply nat_list_eqb_eq. Qed.
+
+Lemma or_mask_length m1 m2 n :
+  (forall m, m1 = Some m -> length m = n) -> (forall m, m2 = Some m -> length m = n) ->
+  forall m, or_mask m1 m2 = Some m -> length m = n.
+Proof.
+  intros H1 H2 m. destruct m1 as [a|], m2 as [b|]; cbn; intros E; inversion E; subst; auto.
+  rewrite zipw_length, (H1 a eq_refl), (H2 b eq_refl). apply Nat.min_id.
+Qed.
+
+(* the result has the shape, bins and name of the left operand, and is well formed *)
+Lemma binop_keeps o d r x :
+  binop o d r = Ok x -> shape x = shape d /\ bins x = bins d /\ name x = name d.
+Proof.
+  destruct r as [c|sh a|d2]; cbn.
+  - intros E; inversion E; subst; cbn; auto.
+  - destruct (negb _); [discriminate|]. intros E; inversion E; subst; cbn; auto.
+  - destruct (negb _); [discriminate|]. intros E; inversion E; subst; cbn; auto.
+Qed.
+
+Lemma binop_wf o d r x : wf d -> wf_rhs r -> binop o d r = Ok x -> wf x.
+Proof.
+  intros (Hv & He & Hm & Hb) Hr.
+  destruct r as [c|sh a|d2]; cbn.
+  - intros E; inversion E; subst; clear E. unfold wf; cbn. rewrite !map_length. auto.
+  - destruct (list_eqb Nat.eqb sh (shape d)) eqn:Es; cbn; [|discriminate].
+    apply nat_list_eqb_eq in Es. subst sh. cbn in Hr.
+    intros E; inversion E; subst; clear E. unfold wf; cbn.
+    rewrite !zipw_length, Hv, He, Hr, Nat.min_id. auto.
+  - destruct (consistent d d2) eqn:Ec; cbn; [|discriminate].
+    apply consistent_shape in Ec. destruct Hr as (Hv2 & He2 & Hm2 & _). rewrite Ec in *.
+    intros E; inversion E; subst; clear E. unfold wf; cbn.
+    rewrite !zipw_length, !combine_length, Hv, He, Hv2, He2, !Nat.min_id.
+    repeat split; auto. now apply or_mask_length.
+Qed.
+
+(* value of the result: the plain array operation, cell by cell *)
+Lemma binop_value_num o d c x :
+  binop o d (RNum c) = Ok x -> value x = map (fun v => cell_val o v c) (value d).
+Proof. cbn. intros E; now inversion E. Qed.
+
+Lemma binop_value_cells o d r x k :
+  wf d -> wf_rhs r -> binop o d r = Ok x -> k < prod (shape d) ->
+  nth k (value x) fzero
+  = cell_val o (nth k (value d) fzero)
+               (match r with
+                | RNum c => c
+                | RArr _ a => nth k a fzero
+                | RDs d2 => nth k (value d2) fzero
+                end).
+Proof.
+  intros (Hv & He & Hm & Hb) Hr.
+  destruct r as [c|sh a|d2]; cbn.
+  - intros E Hk; inversion E; subst; clear E; cbn.
+    rewrite <- Hv in Hk.
+    rewrite (nth_indep _ fzero (cell_val o fzero c)) by now rewrite map_length.
+    now rewrite (map_nth (fun v => cell_val o v c)).
+  - destruct (list_eqb Nat.eqb sh (shape d)) eqn:Es; cbn; [|discriminate].
+    apply nat_list_eqb_eq in Es. subst sh. cbn in Hr.
+    intros E Hk; inversion E; subst; clear E; cbn. apply zipw_nth; lia.
+  - destruct (consistent d d2) eqn:Ec; cbn; [|discriminate].
+    apply consistent_shape in Ec. destruct Hr as (Hv2 & He2 & Hm2 & _). rewrite Ec in *.
+    intros E Hk; inversion E; subst; clear E; cbn. apply zipw_nth; lia.
+Qed.
+
+Definition op_fn (o : bop) : b64 -> b64 -> b64 :=
+  match o with Add => fadd | Sub => fsub | Mul => fmul | Div => fdiv end.
+
+Lemma cell_val_is_op o v1 v2 : cell_val o v1 v2 = op_fn o v1 v2.
+Proof. destruct o; reflexivity. Qed.
+
+(* error cells, dataset (op) dataset: the formula [err_dd] on the four cells *)
+Lemma binop_error_cells_ds o d d2 x k :
+  wf d -> wf d2 -> binop o d (RDs d2) = Ok x -> k < prod (shape d) ->
+  nth k (error x) fzero
+  = eval B64A (err_dd o) (mkenv (nth k (value d) fzero) (nth k (error d) fzero)
+                                (nth k (value d2) fzero) (nth k (error d2) fzero)).
+Proof.
+  intros (Hv & He & Hm & Hb) (Hv2 & He2 & Hm2 & _). cbn.
+  destruct (consistent d d2) eqn:Ec; cbn; [|discriminate].
+  apply consistent_shape in Ec. rewrite Ec in *.
+  intros E Hk; inversion E; subst; clear E; cbn.
+  rewrite (zipw_nth _ _ _ _ (fzero, fzero) (fzero, fzero)) by (rewrite combine_length; lia).
+  rewrite !combine_nth_pair by lia. reflexivity.
+Qed.
+
+(* a constant factor scales every error by its magnitude *)
+Lemma binop_error_const_mul d c x :
+  binop Mul d (RNum c) = Ok x -> error x = map (fun e => fmul e (fabs c)) (error d).
+Proof. cbn. intros E; now inversion E. Qed.
+
+Lemma binop_error_const_div d c x :
+  binop Div d (RNum c) = Ok x -> error x = map (fun e => fdiv e (fabs c)) (error d).
+Proof. cbn. intros E; now inversion E. Qed.
+
+Lemma binop_error_const_shift o d c x :
+  o = Add \/ o = Sub -> binop o d (RNum c) = Ok x -> error x = error d.
+Proof. intros [-> | ->]; cbn; intros E; inversion E; cbn; apply map_id. Qed.
+
+Lemma binop_const_sign_irrelevant o d c :
+  match binop o d (RNum c), binop o d (RNum (fneg c)) with
+  | Ok x, Ok y => error x = error y
+  | _, _ => False
+  end.
+Proof.
+  cbn. apply map_ext. intros e. symmetry. apply cell_err_const_sign_irrelevant.
+Qed.
+
+(* ---- sign of the errors ---- *)
+
+Lemma binop_error_sign_ds o d d2 x :
+  binop o d (RDs d2) = Ok x -> Forall (fun e => Bsign e = false) (error x).
+Proof.
+  cbn. destruct (negb _); [discriminate|]. intros E; inversion E; subst; clear E; cbn.
+  apply zipw_Forall. intros a b _ _. apply cell_err_dd_sign.
+Qed.
+
+Lemma binop_error_not_neg o d r x :
+  Forall not_neg (error d) -> binop o d r = Ok x -> Forall not_neg (error x).
+Proof.
+  intros Hd. destruct r as [c|sh a|d2].
+  - cbn. intros E; inversion E; subst; clear E; cbn.
+    apply Forall_map. eapply Forall_impl; [|exact Hd]. intros e He. now apply cell_err_dc_not_neg.
+  - cbn. destruct (negb _); [discriminate|]. intros E; inversion E; subst; clear E; cbn.
+    apply zipw_Forall. intros e c He _. apply cell_err_dc_not_neg.
+    rewrite Forall_forall in Hd. now apply Hd.
+  - intros E. eapply Forall_impl; [|exact (binop_error_sign_ds _ _ _ _ E)].
+    intros e. apply Bsign_false_not_neg.
+Qed.
+
+(* ---- copy, mask, squeeze ---- *)
+
+Lemma prod_filter_unit sh : prod (filter (fun n => negb (Nat.eqb n 1)) sh) = prod sh.
+Proof.
+  induction sh as [|n sh IH]; cbn; [reflexivity|].
+  destruct (Nat.eqb n 1) eqn:E; cbn [negb].
+  - apply Nat.eqb_eq in E; subst. fold (prod (filter (fun n0 => negb (Nat.eqb n0 1)) sh)). rewrite IH.
+    unfold prod. lia.
+  - cbn [fold_right]. fold (prod (filter (fun n0 => negb (Nat.eqb n0 1)) sh)). rewrite IH. reflexivity.
+Qed.
+
+Lemma drop_unit_map {X Y} (f : X -> Y) sh l : map f (drop_unit sh l) = drop_unit sh (map f l).
+Proof.
+  revert l; induction sh as [|n sh IH]; intros [|x l]; cbn; auto.
+  destruct (Nat.eqb n 1); cbn; now rewrite IH.
+Qed.
+
+Lemma drop_unit_ok sh (bs : list (list b64)) :
+  length bs = length sh ->
+  Forall2 (fun n b => length b = n \/ length b = S n) sh bs ->
+  let sh' := filter (fun n => negb (Nat.eqb n 1)) sh in
+  length (drop_unit sh bs) = length sh' /\
+  Forall2 (fun n b => length b = n \/ length b = S n) sh' (drop_unit sh bs).
+Proof.
+  intros _ H. induction H as [|n b sh bs Hnb H IH]; cbn; [split; constructor|].
+  destruct (Nat.eqb n 1); cbn; [exact IH|].
+  destruct IH as [IH1 IH2]. split; [now rewrite IH1 | now constructor].
+Qed.
+
+Lemma squeeze_wf d : wf d -> wf (squeeze d).
+Proof.
+  intros (Hv & He & Hm & Hb). unfold wf, squeeze; cbn. rewrite prod_filter_unit.
+  repeat split; auto.
+  rewrite drop_unit_map. destruct Hb as [Hb | [Hl Hf]].
+  - left. rewrite Hb. now destruct (shape d).
+  - right. now apply drop_unit_ok.
+Qed.
+
+Lemma mask_wf d m x : wf d -> run_op d (OMask m) = Ok x -> wf x.
+Proof.
+  intros (Hv & He & Hm & Hb). cbn. destruct (Nat.eqb _ _) eqn:El; [|discriminate].
+  apply Nat.eqb_eq in El. intros E; inversion E; subst; clear E.
+  unfold wf; cbn. repeat split; auto.
+  apply or_mask_length; [exact Hm|]. intros m' E; inversion E; subst. now rewrite El.
+Qed.
+
+(* a mask leaves every cell, the bins, the name alone *)
+Lemma mask_keeps d m x :
+  run_op d (OMask m) = Ok x ->
+  shape x = shape d /\ value x = value d /\ error x = error d /\ bins x = bins d
+  /\ name x = name d /\ what x = what d.
+Proof. cbn. destruct (Nat.eqb _ _); [|discriminate]. intros E; inversion E; cbn; auto 10. Qed.
+
+(* copy: same content, no component aliases the original *)
+Lemma copy_spec d :
+  run_op d OCopy = Ok d /\ prov_of OCopy = mk_prov Fresh Fresh Fresh.
+Proof. split; reflexivity. Qed.
+
+(* every value or error array computed by an operation is a new array *)
+Lemma computed_value_fresh o r : p_value (prov_of (OBin o r)) = Fresh.
+Proof. destruct o, r; reflexivity. Qed.
+
+(* ---- chains ---- *)
+
+Definition wf_op (o : op) : Prop :=
+  match o with OBin _ r => wf_rhs r | _ => True end.
+
+Lemma run_op_wf d o x : wf d -> wf_op o -> run_op d o = Ok x -> wf x.
+Proof.
+  intros Hd Ho. destruct o as [b r| |m|].
+  - now apply binop_wf.
+  - cbn. intros E; inversion E; now subst.
+  - now apply mask_wf.
+  - cbn. intros E; inversion E; subst. now apply squeeze_wf.
+Qed.
+
+Theorem chain_wf ops : forall d x,
+  wf d -> Forall wf_op ops -> run_chain d ops = Ok x -> wf x.
+Proof.
+  induction ops as [|o ops IH]; intros d x Hd Hops; cbn.
+  - intros E; inversion E; now subst.
+  - inversion Hops as [|? ? Ho Hr]; subst.
+    destruct (run_op d o) as [d'|c] eqn:E1; [|discriminate].
+    apply IH; [eapply run_op_wf; eauto | exact Hr].
+Qed.
+
+Theorem chain_error_not_neg ops : forall d x,
+  Forall not_neg (error d) -> run_chain d ops = Ok x -> Forall not_neg (error x).
+Proof.
+  induction ops as [|o ops IH]; intros d x Hd; cbn.
+  - intros E; inversion E; now subst.
+  - destruct (run_op d o) as [d'|c] eqn:E1; [|discriminate].
+    apply IH. destruct o as [b r| |m|]; cbn in E1.
+    + eapply binop_error_not_neg; eauto.
+    + inversion E1; now subst.
+    + destruct (Nat.eqb _ _); [|discriminate]. inversion E1; now subst.
+    + inversion E1; now subst.
+Qed.
+
+(* the bins of a result are bins of the left operand: all of them, unless a
+   squeeze dropped those of unit dimensions *)
+Inductive sublist {X} : list X -> list X -> Prop :=
+| sub_nil : sublist [] []
+| sub_keep x l1 l2 : sublist l1 l2 -> sublist (x :: l1) (x :: l2)
+| sub_drop x l1 l2 : sublist l1 l2 -> sublist l1 (x :: l2).
+
+Lemma sublist_refl {X} (l : list X) : sublist l l.
+Proof. induction l; now constructor. Qed.
+
+Lemma sublist_nil {X} (l : list X) : sublist [] l.
+Proof. induction l; now constructor. Qed.
+
+Lemma sublist_trans {X} (l1 l2 l3 : list X) : sublist l1 l2 -> sublist l2 l3 -> sublist l1 l3.
+Proof.
+  intros H12 H23. revert l1 H12. induction H23 as [|x l2 l3 H IH|x l2 l3 H IH]; intros l1 H12.
+  - exact H12.
+  - inversion H12; subst; [apply sub_keep | apply sub_drop]; now apply IH.
+  - apply sub_drop. now apply IH.
+Qed.
+
+Lemma drop_unit_sublist {X} sh (l : list X) : sublist (drop_unit sh l) l.
+Proof.
+  revert l; induction sh as [|n sh IH]; intros [|x l]; cbn; try apply sublist_nil.
+  destruct (Nat.eqb n 1); [apply sub_drop | apply sub_keep]; apply IH.
+Qed.
+
+Definition is_squeeze (o : op) : bool := match o with OSqueeze => true | _ => false end.
+
+Lemma run_op_keeps d o x :
+  run_op d o = Ok x ->
+  name x = name d /\ sublist (bins x) (bins d) /\
+  (is_squeeze o = false -> shape x = shape d /\ bins x = bins d).
+Proof.
+  destruct o as [b r| |m|]; intros E.
+  - destruct (binop_keeps _ _ _ _ E) as (Hs & Hb & Hn). rewrite Hb.
+    repeat split; auto using sublist_refl.
+  - cbn in E; inversion E; subst. repeat split; auto using sublist_refl.
+  - destruct (mask_keeps _ _ _ E) as (Hs & _ & _ & Hb & Hn & _). rewrite Hb.
+    repeat split; auto using sublist_refl.
+  - cbn in E; inversion E; subst; cbn. repeat split; [apply drop_unit_sublist | discriminate | discriminate].
+Qed.
+
+Theorem chain_keeps ops : forall d x,
+  run_chain d ops = Ok x ->
+  name x = name d /\ sublist (bins x) (bins d) /\
+  (forallb (fun o => negb (is_squeeze o)) ops = true -> shape x = shape d /\ bins x = bins d).
+Proof.
+  induction ops as [|o ops IH]; intros d x; cbn.
+  - intros E; inversion E; subst. repeat split; auto using sublist_refl.
+  - destruct (run_op d o) as [d'|c] eqn:E1; [|discriminate]. intros E.
+    destruct (run_op_keeps _ _ _ E1) as (Hn1 & Hs1 & Hk1).
+    destruct (IH _ _ E) as (Hn & Hs & Hk).
+    split; [congruence|]. split; [eapply sublist_trans; eauto|].
+    rewrite andb_true_iff, negb_true_iff. intros [Ho Hr].
+    destruct (Hk1 Ho) as [A B]. destruct (Hk Hr) as [C D]. split; congruence.
+Qed.
+
+(* a chain never hands back one of its inputs modified: results are new
+   records, and [run_chain] has no access to anything but its arguments.  What
+   can be stated: running a chain twice from the same dataset gives the same
+   result (no hidden state). This is trivial in Gallina and recorded only for
+   the reader; the real claim is validated by snapshots in the driver. *)
